@@ -63,6 +63,7 @@ def citations : List (Lean.Name × String × List String) := [
   (``Hts.Props.C11.cramBlock_make_bound, "ops", ["cram.Block.readFrom"]),
   (``Hts.Props.C11.cramSlice_total, "ops", ["cram.Slice.readFrom", "cram.errorReader.itf8slice"]),
   (``Hts.Props.C11.cramBlockValue_total, "ops", ["cram.Block.Value", "cram.Block.expandBlockdata", "cram.Slice.readFrom"]),
+  (``Hts.Props.C11.cramBlockValue_total_all, "ops", ["cram.Block.Value", "cram.Block.expandBlockdata", "cram.Slice.readFrom"]),
   (``Hts.Props.C11.readBAI_total, "ops",
     ["internal.readBins", "internal.readChunks", "internal.readIndices", "internal.readIntervals"]),
   (``Hts.Props.C11.readTabix_total, "ops",
